@@ -5,16 +5,6 @@
 From C15 Require Import Model Spec IntProofs WordProofs EnglishProofs.
 Open Scope list_scope.
 
-Lemma digit_text_length_ge : forall k n, (10 ^ N.of_nat k <= n)%N -> k + 1 <= List.length (digit_text 10 n).
-Proof.
-  induction k as [|k IH]; intros n H.
-  - pose proof (digit_text_nonempty 10 n) as Hne. destruct (digit_text 10 n); [contradiction | cbn; lia].
-  - rewrite Nat2N.inj_succ, N.pow_succ_r' in H.
-    assert (1 <= 10 ^ N.of_nat k)%N by (apply N.lt_pred_le; apply N.neq_0_lt_0; apply N.pow_nonzero; lia).
-    rewrite digit_text_step by lia. rewrite app_length. cbn [List.length].
-    assert (10 ^ N.of_nat k <= n / 10)%N by (apply N.div_le_lower_bound; lia).
-    specialize (IH (n / 10)%N H1). lia.
-Qed.
 Lemma head_not_minus : forall n, ascii_eqb (hd zero (digit_text 10 n)) "-" = false.
 Proof.
   intros n. pose proof (digit_text_head 10 n ltac:(lia)) as H. unfold is_sign in H.
